@@ -30,6 +30,19 @@ CHECKS = {
  "C15": dict(engine="sessionsim", section="5 C15", technique="deterministic simulation: write histories by several clients into shared and separate working directories with torn writes / open errors / cancellations and retries, checked against a simulated-disk reference model",
    text="Seeded exploration: after every write operation and again at the end of the session, every file the simulated disk model says must exist is parsed with the simulator's own parser and compared with the documented name pattern (frozen transcription), the requested T/P grid labels, and the array obtained from the same calculator through the public attribute, converted with CODATA constants independent of pint (constant-ratio test 1e-12, unit test 1e-8); aliases and repeated writes must be byte-identical; nothing else in the tree may change. Sampling, not proof.",
    note="Trusts: the frozen transcription of the documented keyword table (cijsim/golden/writer_rules.json); the in-memory side is the calculator's own public attribute (whether that value is physically right is C05, not claimed)."),
+
+ "C04": dict(engine="tasksim", section="5 C04", technique="deterministic simulation of request histories (seeded subsets, orders, spellings) against the real task scheduler under a trace monitor; differential against singleton-request references",
+   text="Seeded exploration: for seeded stub-calculator worlds with seven kinds of strain fields (including nearly equal axial strains, where approximate de-duplication could merge distinct tasks), the 21 singleton requests give reference values; then the full set in three orders and 30 (thorough 60) seeded request histories run on the real resolve/calculate/lookup code while a monitor stamps every evaluation, store and lookup with a sequence number and checks: graph acyclic, work list topological, every dependency of a shear task stored before it is evaluated, no task evaluated twice, every requested key (in every spelling) gets a grid-shaped value; afterwards every value must equal its singleton-request value within 1e-9 of the tensor's scale. Isotropy and axis-relabelling clauses ride along as differential checks. Sampling, not proof.",
+   note="Trusts: the stub calculator exposes what the contribution classes read; tolerance 1e-9 x global scale (rounding differences observed <= 2e-16, smallest wrong-merge effect seen 1e-8). The 'calculator' world kind of the design (real Calculator behind the scheduler) is exercised by C12/C14 sessions rather than here."),
+ "C17": dict(engine="sessionsim", section="5 C17", technique="deterministic simulation (thin): write/overwrite/read histories by 1-3 clients in shared and separate directories, checked against the simulated-disk model; injected open/read/torn-write faults with retry",
+   text="Seeded exploration: whatever the real readers return (read_energy, read_elast_data, Calculator.qha_input / elast_data) must equal the numbers the simulator wrote into that path, to the written precision; write_energy followed -- any number of operations later, after overwrites by smaller data sets and writes by other clients -- by read_energy returns the latest data set to the written precision; the fill command's stdout parses as a static table equal to the symmetry-filled parse of its input with header lines, volumes and lattice block preserved. Nothing nondeterministic is in the statement; the simulation contributes histories and faulted retries only (see DESIGN.md 3).",
+   note="Trusts: the simulator's own file writers as ground truth (10 significant digits); for the fill round trip, apply_symetry_on_elast_data (real code) is the reference, as the statement defines it."),
+ "C19": dict(engine="sessionsim", section="5 C19", technique="deterministic simulation: read-your-writes through a shared working directory after arbitrary write histories, stale and torn files, permuted directory listings; oracle = the table on the simulated disk, parsed independently, plus exact bicubic stub tables",
+   text="Seeded exploration: after write histories by one or two clients (shared cwd, overwrites, torn writes and retries, clutter, permuted listing order) extract must return exactly the row (column) of the variable's table whose label is nearest to the request, labelled by the other coordinate, to the printed digits; extract-geotherm must pass the geotherm's columns through and return the table entry at grid nodes (1e-6) and, for simulator-placed tables that are bicubic polynomials in (T,P), the polynomial everywhere inside the range (1e-6). The convergence clause for general tables off the nodes is not decided. Sampling, not proof.",
+   note="Trusts: the simulator's own table parser; variables resolving to no, several or torn tables, requests mixing tables on different grids and exact ties are skipped (counted in the evidence). Open known finding: NaN anywhere in a table poisons extract-geotherm."),
+ "C09": dict(engine="sessionsim", section="5 C09", technique="deterministic simulation: fill operations under working-directory states (shadow names, relation files) and process history, differential against a clean-cwd solo fresh-fork reference; presentation clauses ride along",
+   text="Seeded exploration of the environment clauses: fill_cij / `cij fill` / Calculator with a symmetry section are issued in working directories containing directories or files named like the requested system, constraints/<system>, other systems, and next to other clients' operations; the outcome (table bytes or exception) must equal the clean-cwd solo reference; an explicit path to a user-written relations file equivalent to the packaged ones must give the packaged result (1e-9), a non-existent path must fail. Ride-along differential clauses on the same runs: column order, letter case, integer-vs-float columns, supplied values unchanged, extra columns passed through. NOT decided: 'refuses exactly when under-determined or inconsistent' and the residual thresholds (needs an independent rank/threshold oracle over inputs).",
+   note="Trusts: hand-written sufficient-subset rule and relation files per system in cijsim/world.py (cross-checked for rank and consistency at build time); only sufficient, consistent tables are generated."),
 }
 
 def main():
